@@ -581,6 +581,12 @@ where
                     handles[wi].push(e);
                     ev = json!({"op":"Retrieve","w":wi+1,"m":m.idjs(),"res":hj(e),"panic":""});
                 }
+                "aclone" => {
+                    // the world's allocator is replaced by a clone of itself (a snapshot taken and put back)
+                    let a: M::Allocator = (*w.read_resource::<M::Allocator>()).clone();
+                    *w.write_resource::<M::Allocator>() = a;
+                    ev = json!({"op":"AClone","w":wi+1,"panic":""});
+                }
                 "amaintain" => {
                     {
                         let ents = w.entities();
